@@ -44,6 +44,8 @@ type FuncContract struct {
 	Decreases  *Clause
 	File       string
 	Line       int
+	Reveal     map[string]bool
+	Witness    map[string]map[string]Expr // clause label -> existential variable -> witness term
 	Names      []string // declared parameter/result names for externs: (a, b) (r1, r2)
 	ResNames   []string
 }
@@ -61,6 +63,7 @@ type SpecFunc struct {
 	Body      Expr
 	Text      string
 	Recursive bool
+	Opaque    bool
 	File      string
 	Line      int
 }
@@ -241,6 +244,41 @@ func (L *Library) loadFile(path string) error {
 			cur.Trusted = strings.TrimSpace(rest)
 		case "props":
 			cur.Props = append(cur.Props, strings.Fields(rest)...)
+		case "witness":
+			// witness <Label>: <var> : <expr>   -- instantiation of an existential when the clause is proved
+			c := cur
+			pend = &pending{text: rest, line: ln, apply: func(text string, line int) error {
+				i := strings.Index(text, ":")
+				if i < 0 {
+					return fmt.Errorf("%s:%d: witness needs 'Label: var : expr'", path, line)
+				}
+				label := strings.TrimSpace(text[:i])
+				r := strings.TrimSpace(text[i+1:])
+				j := strings.Index(r, ":")
+				if j < 0 {
+					return fmt.Errorf("%s:%d: witness needs 'Label: var : expr'", path, line)
+				}
+				v := strings.TrimSpace(r[:j])
+				e, err := parseExpr(strings.TrimSpace(r[j+1:]))
+				if err != nil {
+					return fmt.Errorf("%s:%d: %v", path, line, err)
+				}
+				if c.Witness == nil {
+					c.Witness = map[string]map[string]Expr{}
+				}
+				if c.Witness[label] == nil {
+					c.Witness[label] = map[string]Expr{}
+				}
+				c.Witness[label][v] = e
+				return nil
+			}}
+		case "reveal":
+			if cur.Reveal == nil {
+				cur.Reveal = map[string]bool{}
+			}
+			for _, a := range strings.Split(rest, ",") {
+				cur.Reveal[strings.TrimSpace(a)] = true
+			}
 		case "decreases":
 			c := cur
 			pend = &pending{text: rest, line: ln, apply: func(text string, line int) error {
@@ -254,12 +292,18 @@ func (L *Library) loadFile(path string) error {
 		case "spec":
 			cur = nil
 			p := pkg
+			opaque := false
+			if strings.HasPrefix(rest, "opaque ") {
+				opaque = true
+				rest = strings.TrimSpace(strings.TrimPrefix(rest, "opaque "))
+			}
 			pend = &pending{text: rest, line: ln, apply: func(text string, line int) error {
 				sf, err := parseSpec(text, path, line)
 				if err != nil {
 					return err
 				}
 				sf.Pkg = p
+				sf.Opaque = opaque
 				if _, dup := L.Specs[sf.Name]; dup {
 					return fmt.Errorf("%s:%d: duplicate spec %s", path, line, sf.Name)
 				}
@@ -867,6 +911,14 @@ func (p *lexer) unary() (Expr, error) {
 		}
 		return &EUn{Op: "-", X: x}, nil
 	}
+	if p.isOp("*") {
+		p.pos++
+		x, err := p.unary()
+		if err != nil {
+			return nil, err
+		}
+		return &EUn{Op: "*", X: x}, nil
+	}
 	return p.postfix()
 }
 
@@ -1021,4 +1073,39 @@ func (p *lexer) primary() (Expr, error) {
 		}
 	}
 	return nil, fmt.Errorf("unexpected %q", t.text)
+}
+
+// instantiate replaces "exists v :: body" by "let v : w in body" for the given witnesses.
+func instantiate(ex Expr, w map[string]Expr) Expr {
+	switch n := ex.(type) {
+	case *EQuant:
+		if !n.Forall {
+			var rest []QVar
+			body := instantiate(n.Body, w)
+			for i := len(n.Vars) - 1; i >= 0; i-- {
+				if we, ok := w[n.Vars[i].Name]; ok {
+					body = &ELet{Name: n.Vars[i].Name, V: we, Body: body}
+				} else {
+					rest = append([]QVar{n.Vars[i]}, rest...)
+				}
+			}
+			if len(rest) == 0 {
+				return body
+			}
+			return &EQuant{Forall: false, Vars: rest, Body: body}
+		}
+		return &EQuant{Forall: true, Vars: n.Vars, Body: instantiate(n.Body, w)}
+	case *EBin:
+		if n.Op == "==>" {
+			return &EBin{Op: n.Op, X: n.X, Y: instantiate(n.Y, w)}
+		}
+		if n.Op == "&&" || n.Op == "||" {
+			return &EBin{Op: n.Op, X: instantiate(n.X, w), Y: instantiate(n.Y, w)}
+		}
+	case *ELet:
+		return &ELet{Name: n.Name, V: n.V, Body: instantiate(n.Body, w)}
+	case *ECond:
+		return &ECond{C: n.C, A: instantiate(n.A, w), B: instantiate(n.B, w)}
+	}
+	return ex
 }
